@@ -242,3 +242,34 @@ func TestIdentifierFoldingIsASCIIOnly(t *testing.T) {
 		t.Error(err)
 	}
 }
+
+func TestDistinctFromAndDefaultValues(t *testing.T) {
+	db := NewDB()
+	if err := db.ExecScript("CREATE TABLE t (id serial PRIMARY KEY, a integer, b text NOT NULL DEFAULT 'x');"); err != nil {
+		t.Fatal(err)
+	}
+	if _, _, err := db.Exec("INSERT INTO t (id, a, b) VALUES (DEFAULT, $1, DEFAULT) RETURNING id, a, b", []any{nil}); err != nil {
+		t.Fatal(err)
+	}
+	if _, _, err := db.Exec("INSERT INTO t (id, a, b) VALUES (DEFAULT, $1, $2)", []any{int64(3), "y"}); err != nil {
+		t.Fatal(err)
+	}
+	for q, want := range map[string]int{
+		"SELECT id FROM t WHERE a IS NOT DISTINCT FROM $1": 1,
+		"SELECT id FROM t WHERE a IS DISTINCT FROM $1":     1,
+	} {
+		for _, arg := range []any{nil, int64(3)} {
+			res, _, err := db.Exec(q, []any{arg})
+			if err != nil {
+				t.Fatal(q, err)
+			}
+			if len(res.Rows) != want {
+				t.Errorf("%s with %v: %d rows, want %d", q, arg, len(res.Rows), want)
+			}
+		}
+	}
+	res, _, _ := db.Exec("SELECT b FROM t WHERE a IS NULL", nil)
+	if len(res.Rows) != 1 || res.Rows[0][0] != "x" {
+		t.Errorf("DEFAULT in VALUES: got %v", res.Rows)
+	}
+}
